@@ -7,6 +7,7 @@ agreement in the thorough tier.  Never counted as proved."""
 import itertools
 import json
 import os
+import shutil
 import subprocess
 import sys
 import tempfile
@@ -349,6 +350,94 @@ def main():
                     text = open(os.path.join(p_, b"packed-refs"), "rb").read() if os.path.exists(os.path.join(p_, b"packed-refs")) else b""
                     if c[b"refs/tags/t"] != C_ or got_p == B or (C_ + b" refs/tags/t\n^" + B) in text:
                         fail("a stale peeled value survives the overwrite of a packed tag ref", {"how": how, "repack": repack, "reopen": reopen, "get_peeled": None if got_p is None else got_p.decode(), "packed_refs": text.decode("latin-1")})
+    # (g) NamespacedRefsContainer: a view restricted to refs/namespaces/<ns>/ behaves as the same map model, over the files
+    #     backend (loose, packed, both) and the dict backend; refs outside the namespace are never visible or touched
+    from dulwich.refs import NamespacedRefsContainer
+    NS_OPS = [("set", b"refs/heads/x", A), ("set", b"refs/heads/x", B), ("set", b"refs/tags/t", B), ("cas", b"refs/heads/x", A, B),
+              ("cas0", b"refs/heads/x", A), ("new", b"refs/tags/t", A), ("del", b"refs/heads/x"), ("delif", b"refs/heads/x", B),
+              ("pack",), ("reopen",)]
+    ns_len = 3 if tier == "quick" else 4
+    with tempfile.TemporaryDirectory() as d3:
+        for kind in ("disk", "dict"):
+            for seq in itertools.product(range(len(NS_OPS)), repeat=ns_len):
+                if kind == "dict" and any(NS_OPS[o][0] in ("pack", "reopen") for o in seq):
+                    continue
+                cases += 1
+                if kind == "disk":
+                    p_ = os.path.join(d3, f"n{cases}").encode()
+                    os.makedirs(os.path.join(p_, b"refs"))
+                    base = DiskRefsContainer(p_)
+                else:
+                    base = DictRefsContainer({})
+                OUT = b"refs/heads/outside"
+                base[OUT] = B
+                ns = NamespacedRefsContainer(base, b"foo")
+                model = {}
+                why = None
+                for o in seq:
+                    op = NS_OPS[o]
+                    if op[0] == "set":
+                        ns[op[1]] = op[2]
+                        model[op[1]] = op[2]
+                    elif op[0] == "cas":
+                        r = ns.set_if_equals(op[1], op[2], op[3])
+                        e = model.get(op[1]) == op[2]
+                        if e:
+                            model[op[1]] = op[3]
+                        if bool(r) != e:
+                            why = f"set_if_equals returned {r}, model {e}"
+                    elif op[0] == "cas0":
+                        r = ns.set_if_equals(op[1], None, op[2])
+                        model[op[1]] = op[2]
+                        if not r:
+                            why = "unconditional set_if_equals refused"
+                    elif op[0] == "new":
+                        r = ns.add_if_new(op[1], op[2])
+                        e = op[1] not in model
+                        if e:
+                            model[op[1]] = op[2]
+                        if bool(r) != e:
+                            why = f"add_if_new returned {r}, model {e}"
+                    elif op[0] == "del":
+                        r = ns.remove_if_equals(op[1], None)
+                        model.pop(op[1], None)
+                        if not r:
+                            why = "unconditional remove refused"
+                    elif op[0] == "delif":
+                        r = ns.remove_if_equals(op[1], op[2])
+                        e = model.get(op[1]) == op[2]
+                        if e:
+                            del model[op[1]]
+                        if bool(r) != e:
+                            why = f"remove_if_equals returned {r}, model {e}"
+                    elif op[0] == "pack":
+                        ns.pack_refs(all=True)
+                    elif op[0] == "reopen":
+                        base = DiskRefsContainer(p_)
+                        ns = NamespacedRefsContainer(base, b"foo")
+                    if why is None:
+                        try:
+                            seen = {k: ns[k] for k in ns.allkeys()}
+                            asd = ns.as_dict()
+                            cont = {k for k in (b"refs/heads/x", b"refs/tags/t", OUT) if k in ns}
+                            under = {k: v for k, v in base.as_dict().items()}
+                        except Exception as ex:  # noqa: BLE001
+                            why = f"reading through the view raised {ex!r}"
+                        else:
+                            exp_under = {b"refs/namespaces/foo/" + k: v for k, v in model.items()}
+                            exp_under[OUT] = B
+                            if seen != model or asd != model or cont != set(model):
+                                why = f"view shows {seen} / as_dict {asd} / contains {sorted(cont)}, model {model}"
+                            elif under != exp_under:
+                                why = f"underlying container holds {under}, expected {exp_under}"
+                            elif any(ns.read_loose_ref(k) is None and ns.get_packed_refs().get(k) != v for k, v in model.items()):
+                                why = f"a ref of the view is neither loose nor in the view's packed refs {ns.get_packed_refs()}"
+                    if why is not None:
+                        fail(f"namespaced view over the {kind} backend deviates from the map model",
+                             {"ops": [[x.decode() if isinstance(x, bytes) else x for x in NS_OPS[o2]] for o2 in seq], "at": NS_OPS[o][0], "why": why})
+                        break
+                if kind == "disk":
+                    shutil.rmtree(p_, ignore_errors=True)
     # (e) symbolic refs (see sym_chunk), 16 processes
     from concurrent.futures import ProcessPoolExecutor
     with ProcessPoolExecutor(max_workers=min(16, os.cpu_count() or 1)) as ex:
